@@ -135,7 +135,7 @@ func c13parse(sink []byte) (frames, resps int64, ok bool) {
 //
 // observation = (sink (frame-messages) (response-messages) (nframes nresps parse_ok)
 //
-//	overlap expect-flag (socket-writes ..) note)
+//	overlap expect-flag (socket-writes ..) note ((published ..) (the same packets afterwards ..) padding-flags-changed))
 func c13session(c Val) Val {
 	c13quiet.Do(func() { xlog.ReplaceGlobal(xlog.New(xlog.NewNopCore())) })
 	ws, scenario := c.At(0).Bool(), c.At(1).Int()
@@ -153,6 +153,10 @@ func c13session(c Val) Val {
 			return "media"
 		case "sock.write":
 			return "req"
+		case "worker.pop", "worker.got":
+			if id == 1 { // the stream's RTP->frame demuxer: works on the SAME *rtp.Packet the viewers are sent
+				return "demux"
+			}
 		}
 		return ""
 	}
@@ -162,6 +166,9 @@ func c13session(c Val) Val {
 		}
 		if thread == "media" {
 			return point == "consume.got" || point == "rtpwrite.prefix" || point == "sock.write"
+		}
+		if thread == "demux" {
+			return point == "worker.got"
 		}
 		return thread == "req" && point == "sock.write"
 	}
@@ -237,6 +244,9 @@ func c13session(c Val) Val {
 	overlap := int64(0)
 	note := ""
 
+	var published []*rtp.Packet
+	var pubData []Val
+	var pubPad []bool
 	publish := func() {
 		p := pkts[nextPkt]
 		nextPkt++
@@ -247,7 +257,8 @@ func c13session(c Val) Val {
 				panic(err)
 			}
 		}
-		frameMsgs = append(frameMsgs, L(B([]byte{'$', pk.Channel, byte(len(data) >> 8), byte(len(data))}), B(data)))
+		published, pubData, pubPad = append(published, pk), append(pubData, B(append([]byte(nil), data...))), append(pubPad, pk.Padding)
+		frameMsgs = append(frameMsgs, L(B([]byte{'$', pk.Channel, byte(len(data) >> 8), byte(len(data))}), B(append([]byte(nil), data...))))
 		stream.WriteRtpPacket(pk)
 		ctl.Settle()
 	}
@@ -287,6 +298,10 @@ func c13session(c Val) Val {
 				step("media")
 			}
 			if ctl.Status("media") == "rtpwrite.prefix" {
+				// the prefix (with len(p.Data)) is out, the body not yet read: the demuxer works on the packet now
+				for guard = 0; guard < 8 && parked("demux"); guard++ {
+					step("demux")
+				}
 				before, _ := sc.snapshot()
 				feed()
 				observe()
@@ -341,6 +356,9 @@ func c13session(c Val) Val {
 		if parked("req") {
 			acts = append(acts, 'R')
 		}
+		if parked("demux") {
+			acts = append(acts, 'D')
+		}
 		if nextPkt < len(pkts) {
 			acts = append(acts, 'P')
 		}
@@ -360,6 +378,8 @@ func c13session(c Val) Val {
 			step("media")
 		case 'R':
 			step("req")
+		case 'D':
+			step("demux")
 		case 'P':
 			publish()
 			observe()
@@ -383,7 +403,16 @@ func c13session(c Val) Val {
 	}
 	sc.mu.Unlock()
 	nf, nr, pok := c13parse(sink)
-	return L(B(sink), L(frameMsgs...), L(respMsgs...), L(I(nf), I(nr), Bo(pok)), I(overlap), I(expect), L(ws_...), S(note))
+	// purity probe: the published packets after everybody (viewers, demuxer) is done with them
+	after, padChanged := []Val{}, int64(0)
+	for i, pk := range published {
+		after = append(after, B(append([]byte(nil), pk.Data...)))
+		if pk.Padding != pubPad[i] {
+			padChanged++
+		}
+	}
+	return L(B(sink), L(frameMsgs...), L(respMsgs...), L(I(nf), I(nr), Bo(pok)), I(overlap), I(expect), L(ws_...), S(note),
+		L(L(pubData...), L(after...), I(padChanged)))
 }
 
 func init() { commands["C13_session"] = c13session }
